@@ -233,6 +233,11 @@ func (t *tr) expr(e ast.Expr) string {
 			return "(!" + t.expr(x.X) + ")"
 		case token.XOR:
 			return "(Go.xor " + t.expr(x.X) + " (-1 : Int))"
+		case token.AND:
+			// &T{…}: a freshly built value of a listed struct (pointers are modelled as values)
+			if cl, ok := x.X.(*ast.CompositeLit); ok {
+				return t.expr(cl)
+			}
 		}
 	case *ast.BinaryExpr:
 		l, r := t.expr(x.X), t.expr(x.Y)
@@ -267,6 +272,41 @@ func (t *tr) expr(e ast.Expr) string {
 		case token.LOR:
 			return "(" + l + " || " + r + ")"
 		}
+	case *ast.CompositeLit:
+		// T{Field: e, …} of a listed struct, keyed form only; omitted fields take Go's zero value
+		if id, ok := x.Type.(*ast.Ident); ok {
+			if si, ok := t.g.structs[id.Name]; ok {
+				given := map[string]string{}
+				for _, el := range x.Elts {
+					kv, ok := el.(*ast.KeyValueExpr)
+					if !ok {
+						t.fail(e, "positional composite literal of %s", id.Name)
+					}
+					given[kv.Key.(*ast.Ident).Name] = t.expr(kv.Value)
+				}
+				parts := []string{}
+				for _, f := range si.fields {
+					v, ok := given[f.name]
+					if !ok {
+						switch f.typ {
+						case "Int":
+							v = "(0 : Int)"
+						case "Bool":
+							v = "false"
+						default:
+							v = "default"
+						}
+					}
+					delete(given, f.name)
+					parts = append(parts, f.name+" := "+v)
+				}
+				if len(given) > 0 {
+					t.fail(e, "composite literal of %s sets a field outside the translated subset", id.Name)
+				}
+				return "({ " + strings.Join(parts, ", ") + " } : " + id.Name + ")"
+			}
+		}
+		t.fail(e, "composite literal of an unlisted type")
 	case *ast.CallExpr:
 		if id, ok := x.Fun.(*ast.Ident); ok {
 			switch id.Name {
